@@ -81,6 +81,30 @@ def junk(rnd):
 
 def scenario(cfg, seed):
     """Seed both global generators, build everything, run the stream; return per-step digests."""
+    return list(scenario_gen(cfg, seed))
+
+
+def interleaved(cfg, seed, cfg_b, seed_b):
+    """Scenario A stepped while an independent scenario B (own objects) is constructed and stepped in between; B's use of
+    the global generators is undone after each of its steps, so A must be bit-identical to running alone - unless library
+    objects share hidden state (class-level / module-level / default-argument containers)."""
+    ga = scenario_gen(cfg, seed)
+    out = []
+    gb = None
+    for i, dg in enumerate(ga):
+        out.append(dg)
+        st = (random.getstate(), np.random.get_state())
+        try:
+            if gb is None:
+                gb = scenario_gen(cfg_b, seed_b)
+            next(gb, None)
+        finally:
+            random.setstate(st[0])
+            np.random.set_state(st[1])
+    return out
+
+
+def scenario_gen(cfg, seed):
     from ixai.explainer import IncrementalSage, IncrementalPFI, BatchSage, IntervalSage
     from ixai.storage import (UniformReservoirStorage, GeometricReservoirStorage, IntervalStorage, BatchStorage, TreeStorage)
     from ixai.imputer import MarginalImputer, DefaultImputer, TreeImputer
@@ -149,7 +173,6 @@ def scenario(cfg, seed):
         e = IntervalSage(model, names, loss, n_inner_samples=cfg["n_inner"], interval_length=3, storage_length=max(size, 2),
                          storage=st, imputer=imp)
     srnd = random.Random(cfg["stream_seed"])
-    digests = []
     steps = cfg["steps"] if kind not in ("batch",) else min(cfg["steps"], 15)
     for t in range(steps):
         x = {n: (float(srnd.randrange(3)) if j == 0 else srnd.gauss(0, 1)) for j, n in enumerate(names)}
@@ -171,8 +194,7 @@ def scenario(cfg, seed):
             xs, ys = st.get_data()
             h.update(repr([sorted((repr(k), fhex(v)) for k, v in xx.items()) for xx in xs]).encode())
             h.update(repr([fhex(v) for v in ys]).encode())
-        digests.append(h.hexdigest()[:12])
-    return digests
+        yield h.hexdigest()[:12]
 
 
 def worker():
@@ -222,6 +244,16 @@ def main(run):
         c = scenario(cfg, seed)
         other = scenario(cfg, seed + 1)
         del keep
+        cfg_b = dict(gen_cfg(rnd, i + 1), steps=cfg["steps"] + 5)
+        try:
+            d_int = interleaved(cfg, seed, cfg_b, seed + 7)
+            run.ok(kind="interleaved-twin")
+            if d_int != a:
+                step = next((k for k, (p_, q_) in enumerate(zip(a, d_int)) if p_ != q_), None)
+                run.violation("shared-state-between-objects", f"scenario diverges at call {step} when an independent scenario {cfg_b} "
+                                                              f"runs interleaved (its generator use undone): cfg {cfg}", {"cfg": cfg, "seed": seed, "other": cfg_b})
+        except Exception as ex:
+            run.other_error(f"interleaved:{type(ex).__name__}:{str(ex)[:60]}")
         run.ok(2, kind="in-process")
         replay = {"cfg": cfg, "seed": seed}
         for name, dgs in (("second replay", b), ("replay after junk preamble", c)):
